@@ -1267,6 +1267,86 @@ Definition verify_challenge (observed d : bytes) : result N :=
   Ok (if list_eq_dec N.eq_dec d o then 0 else 2).
 
 (* ------------------------------------------------------------------ *)
+(* pkg/dhcp/relay/v6rewrite.go (DHCPv6 proxy: the server's reply is walked and patched): GetServerDUID, ReplaceServerDUID,
+   RewriteV6Lifetimes / rewriteV6Options (recursive: IA options nest) *)
+Fixpoint server_duid_loop (fuel : nat) (i : N) (pkt : bytes) : result (option bytes) :=
+  match fuel with
+  | O => OutOfFuel
+  | S f =>
+    if i + 4 <=? lenN pkt then
+      code <- u16at i pkt;; ol <- u16at (i + 2) pkt;;
+      if lenN pkt <? i + 4 + ol then Ok None else
+      if code =? 2 then (d <- sl (i + 4) (i + 4 + ol) pkt;; Ok (Some d)) else server_duid_loop f (i + 4 + ol) pkt
+    else Ok None
+  end.
+Definition get_server_duid (pkt : bytes) : result (option bytes) :=
+  if lenN pkt <? 4 then Ok None else server_duid_loop (S (length pkt)) 4 pkt.
+Fixpoint replace_duid_loop (fuel : nat) (i : N) (pkt duid : bytes) : result bytes :=
+  match fuel with
+  | O => OutOfFuel
+  | S f =>
+    if i + 4 <=? lenN pkt then
+      code <- u16at i pkt;; ol <- u16at (i + 2) pkt;;
+      if lenN pkt <? i + 4 + ol then Ok pkt else
+      if code =? 2 then
+        (if ol =? lenN duid then
+           (a <- sl 0 (i + 4) pkt;; _o <- sl (i + 4) (i + 4 + ol) pkt;; b <- slf (i + 4 + ol) pkt;; Ok (a ++ duid ++ b))
+         else
+           (a <- sl 0 (i + 2) pkt;; b <- slf (i + 4 + ol) pkt;; Ok (a ++ put16 (lenN duid mod 65536) ++ duid ++ b)))
+      else replace_duid_loop f (i + 4 + ol) pkt duid
+    else Ok pkt
+  end.
+Definition replace_server_duid (pkt duid : bytes) : result bytes :=
+  if lenN pkt <? 4 then Ok pkt else replace_duid_loop (S (length pkt)) 4 pkt duid.
+Fixpoint rw6 (fuel : nat) (data : bytes) (pref valid : N) : result bytes :=
+  match fuel with
+  | O => OutOfFuel
+  | S f =>
+    if 4 <=? lenN data then
+      code <- u16at 0 data;; ol <- u16at 2 data;;
+      if lenN data <? 4 + ol then Ok data else
+      hd <- sl 0 4 data;; od <- sl 4 (4 + ol) data;;
+      od' <- (if (code =? 3) || (code =? 25) then
+                (if 12 <=? lenN od then
+                   iaid <- sl 0 4 od;; _t <- sl 4 8 od;; _u <- sl 8 12 od;;
+                   sub' <- (if 12 <? lenN od then (sub <- slf 12 od;; rw6 f sub pref valid) else Ok []);;
+                   Ok (iaid ++ put32 (pref / 2) ++ put32 ((pref * 4 / 5) mod 4294967296) ++ sub')
+                 else Ok od)
+              else if code =? 5 then
+                (if 24 <=? lenN od then
+                   a <- sl 0 16 od;; _p <- sl 16 20 od;; _v <- sl 20 24 od;; r <- slf 24 od;;
+                   Ok (a ++ put32 pref ++ put32 valid ++ r)
+                 else Ok od)
+              else if code =? 26 then
+                (if 8 <=? lenN od then
+                   _p <- sl 0 4 od;; _v <- sl 4 8 od;; r <- slf 8 od;; Ok (put32 pref ++ put32 valid ++ r)
+                 else Ok od)
+              else Ok od);;
+      rest <- slf (4 + ol) data;;
+      rest' <- rw6 f rest pref valid;;
+      Ok (hd ++ od' ++ rest')
+    else Ok data
+  end.
+Definition rewrite_v6_lifetimes (pkt : bytes) (pref valid : N) : result bytes :=
+  if lenN pkt <? 4 then Ok pkt else
+  h <- sl 0 4 pkt;; d <- slf 4 pkt;; d' <- rw6 (S (length d)) d pref valid;; Ok (h ++ d').
+(* rewrite.go GetGIAddr / SetGIAddr / GetHops / IncrementHops *)
+Definition get_giaddr (pkt : bytes) : result (option bytes) :=
+  if lenN pkt <? 28 then Ok None else (x <- sl 24 28 pkt;; Ok (Some x)).
+(* net.IP.To4: a 4-byte address is itself, a 16-byte IPv4-mapped address gives its last four bytes, anything else is nil
+   (and copy() of nil changes nothing) *)
+Definition ip_to4 (ip : bytes) : bytes :=
+  if lenN ip =? 4 then ip
+  else if (lenN ip =? 16) && forallb (fun x => x =? 0) (firstn 10 ip) && forallb (fun x => x =? 255) (firstn 2 (skipn 10 ip))
+       then skipn 12 ip else [].
+Definition set_giaddr (pkt ip : bytes) : result bytes :=
+  if lenN pkt <? 28 then Ok pkt else
+  if lenN (ip_to4 ip) =? 4 then (a <- sl 0 24 pkt;; _o <- sl 24 28 pkt;; b <- slf 28 pkt;; Ok (a ++ ip_to4 ip ++ b)) else Ok pkt.
+Definition incr_hops (pkt : bytes) : result bytes :=
+  if 3 <? lenN pkt then (a <- sl 0 3 pkt;; h <- idx 3 pkt;; b <- slf 4 pkt;; Ok (a ++ byte_of (h + 1) :: b)) else Ok pkt.
+Definition get_hops (pkt : bytes) : result N := if 3 <? lenN pkt then idx 3 pkt else Ok 0.
+
+(* ------------------------------------------------------------------ *)
 (* Admissible outcomes.  The property lets the code reject or ignore malformed input; where an implementation may
    legitimately be stricter than /repo HEAD the model marks exactly those inputs "may ignore" and nothing wider:
    a PPP-IPv6 (0x0057) frame whose Information field is not an IPv6 datagram (shorter than the 40-byte fixed header, or
@@ -1426,8 +1506,7 @@ Definition o4_toks (o : o4) : list tok :=
    tob (q_mask o); tob (q_router o)] ++ TN (N.of_nat (length (q_dns o))) :: map TB (q_dns o) ++ [tob (q_o82 o)].
 Definition msg4_toks (m : msg4) : list tok :=
   [TN (w_op m); TN (w_htype m); TN (w_hlen m); TN (w_hops m); TN (w_xid m); TN (w_secs m); TN (w_flags m);
-   TB (w_ci m); TB (w_yi m); TB (w_si m); TB (w_gi m); TB (w_ch m); TB (w_sname m); TB (w_file m);
-   tbool (w_hasopts m)] ++ o4_toks (w_opts m).
+   TB (w_ci m); TB (w_yi m); TB (w_si m); TB (w_gi m); TB (w_ch m); TB (w_sname m); TB (w_file m)] ++ o4_toks (w_opts m).
 (* insertion sort of the option map by code for printing *)
 Fixpoint ins_sorted (kv : N * bytes) (l : list (N * bytes)) : list (N * bytes) :=
   match l with [] => [kv] | x :: r => if fst kv <=? fst x then kv :: l else x :: ins_sorted kv r end.
@@ -1443,7 +1522,9 @@ Definition run (v : variant) (entry : N) (na : list N) (ba : list bytes) : resul
   let b := barg 0 ba in
   if entry =? 1 then (rmap (fun r => let '(c, i, p) := r in [TN c; TN i; TB p]) (ppp_hdr v b)) else
   if entry =? 2 then
-    (r <- handle_frame v (mk_dcfg (negb (arg 1 na =? 0)) (negb (arg 2 na =? 0)) (negb (arg 3 na =? 0))) (arg 0 na) b;;
+    (* phase argument: 1 Network, 2 Open, 3 no PhaseFn are "network phase"; 0 Authenticate, 4 Dead, 5 Establish, 6 Terminate,
+        7 LAC-tunnel-pending, 8 LAC-tunneled are not *)
+    (r <- handle_frame v (mk_dcfg ((arg 1 na =? 1) || (arg 1 na =? 2) || (arg 1 na =? 3)) (negb (arg 2 na =? 0)) (negb (arg 3 na =? 0))) (arg 0 na) b;;
      Ok (route_toks r ++
          (if negb (arg 3 na =? 0) && is_fsm_proto (arg 0 na) && fsm_predictable (nth 0 b 0)
           then [TN 77; tbool (fsm_answers r)] else []))) else
@@ -1478,6 +1559,11 @@ Definition run (v : variant) (entry : N) (na : list N) (ba : list bytes) : resul
   if entry =? 70 then Ok (pool_burst (arg 0 na) (arg 1 na)) else
   if entry =? 72 then Ok (rad_history b (skipn 1 ba)) else
   if entry =? 73 then Ok [tbool (rad_parse_ok b); TN (if rad_parse_ok b then rad_declared b else 0)] else
+  if entry =? 79 then rmap (fun o => [tob o]) (get_server_duid b) else
+  if entry =? 80 then rmap (fun x => [TB x]) (replace_server_duid b (barg 1 ba)) else
+  if entry =? 81 then rmap (fun x => [TB x]) (rewrite_v6_lifetimes b (arg 0 na) (arg 1 na)) else
+  if entry =? 82 then (g <- get_giaddr b;; s <- set_giaddr b (barg 1 ba);; h <- get_hops b;; i <- incr_hops b;;
+                        Ok [tob g; TB s; TN h; TB i]) else
   if entry =? 77 then rmap (fun x => [tbool x]) (cookie_validate b (barg 1 ba) (negb (arg 0 na =? 0))) else
   if entry =? 78 then rmap (fun x => [TN (if x =? 0 then 0 else 1)]) (verify_challenge b (barg 1 ba)) else
   if entry =? 76 then rmap (fun l => flat_map (fun st => TN 255 :: lns_toks st) l) (lns_run (barg 0 ba) lns0 (skipn 1 ba)) else
